@@ -844,10 +844,10 @@ def shards(tier, seed):
         # stride 4 for quara's Hermitian basis on the permuted system and with stride 8 for the other two
         for j in split("gate", "S23", "std", 10, 16, dense_every=16):
             shard("gate", [j])
-        for j in split("gate", "S23p", "nherm", 3, 12, dense_every=16, stride=4):
+        for j in split("gate", "S23p", "nherm", 4, 12, dense_every=32, stride=4):
             shard("gate", [j])
         for shape, kind in (("S23", "rot"), ("S23p", "nggm")):
-            for j in split("gate", shape, kind, 2, 12, dense_every=16, stride=8):
+            for j in split("gate", shape, kind, 4, 12, dense_every=32, stride=8):
                 shard("gate", [j])
         shard("mprocess", [j for kind in ("std", "nggm") for j in split("mprocess", "S1", kind, 1, 24)])
         shard("mprocess", [j for kind in ("std", "nggm") for j in split("mprocess", "S3", kind, 1, 24)])
